@@ -849,12 +849,14 @@ Definition is_section (k : bytes) : bool :=
 (* a well-formed member: the three sections are non-empty lists of objects / of strings WITHOUT REPEATED ids / URIs
    (since commit 94b5572 a repeated id collapses to one entry, so such a document is not reproduced; before the fix
    the repetition was reproduced and this condition was not needed); every other member name
-   denotes itself in the JSON text of the generated patch ([key_plain]) and as a JSON-pointer token ([name_plain]) *)
+   denotes itself as a JSON-pointer token ([name_plain]: no '/', no '~' - the property's premise "needs no JSON-pointer
+   escaping").  Until the repair 5d68dd6 (F17) the name also had to denote itself when pasted into JSON text
+   ([key_plain]: no quote, backslash or control byte); that condition is gone. *)
 Definition wf_member (kv : bytes * json) : Prop :=
   if bytes_eqb (fst kv) d_publicKey then entries_ok (snd kv)
   else if bytes_eqb (fst kv) d_service then entries_ok (snd kv)
   else if bytes_eqb (fst kv) d_alsoKnownAs then uris_ok (snd kv)
-  else key_plain (fst kv) = true /\ name_plain (fst kv) = true.
+  else name_plain (fst kv) = true.
 
 Definition wf_document (m : list (bytes * json)) : Prop :=
   NoDup (map fst m) /\ has_id (JObj m) = false /\ Forall wf_member m.
@@ -964,7 +966,7 @@ Proof.
     + destruct (bytes_eqb k d_alsoKnownAs) eqn:E3.
       * destruct Hkv as [us [Hv [Hne _]]]. subst v. rewrite (uris_of_ok us Hne).
         cbn [negb map]. rewrite (sec_patch_3 k _ E1 E2). reflexivity.
-      * destruct Hkv as [Hp _]. rewrite Hp. cbn [negb map]. reflexivity.
+      * cbn [negb map]. reflexivity.
 Qed.
 
 Lemma pa_pk : forall v, patch_action (mk_patch a_add_pk pk_publicKeys v) = Some a_add_pk. Proof. reflexivity. Qed.
